@@ -103,11 +103,9 @@ package dns
 
 // packing writes the caller's buffer and, for PackRR, the record's own RDLENGTH (documented bookkeeping)
 //@ func packRR [C16]
-//@   opt no-safety
 //@   writes msg
 //@   modifies MS.mapLstringJint MS.mapLstringJuint16
 //@ func PackRR [C16]
-//@   opt no-safety
 //@   writes msg
 //@   modifies H.RR_Header.Rdlength.v@rr MS.mapLstringJint@compression MS.mapLstringJuint16@compression
 
